@@ -770,10 +770,6 @@ class Prop:
         names = ['NotFound', 'Valid', 'Invalid']
         slots, oks, robs = obs
         asg = [sl[0][1] if sl else None for sl in slots]
-        for j, sl in enumerate(slots):
-            if sl and any(p < 3 for p in sl[0][1]) and not sl[0][0]:
-                fails.append((j, 'policy-handover', '%s assignment %s lists an rpki policy but needs_rpki is false: its evaluation is not handed the RPKI table' % (
-                    ['global import', 'global export', 'per-peer export'][j], [self.POLICY_NAMES[p] for p in sl[0][1]])))
         use = [asg[0], asg[1], asg[2] if asg[2] is not None else asg[1]]
         vset = {vrp_key(n[0], n[1], n[2], mx, a, 0) for n, mx, a in c['vrps']}
         for k, ((route, local, attrs), ob) in enumerate(zip(c['routes'], robs)):
@@ -790,6 +786,10 @@ class Prop:
                     fails.append((k, cls, 'route %d (%s/%d, RFC 6811 state %s): %s with policies %s %s the route, the validation state used by policy requires it to be %s' % (
                         k, '.'.join(map(str, route[1])), route[2], names[st], what, [self.POLICY_NAMES[p] for p in l] if l is not None else None,
                         'accepts' if ob[j] else 'rejects', 'accepted' if want else 'rejected')))
+        for j, sl in enumerate(slots):
+            if sl and any(p < 3 for p in sl[0][1]) and not sl[0][0]:
+                fails.append((j, 'policy-handover', '%s assignment %s lists an rpki policy but needs_rpki is false: its evaluation is not handed the RPKI table' % (
+                    ['global import', 'global export', 'per-peer export'][j], [self.POLICY_NAMES[p] for p in sl[0][1]])))
         return fails
 
     KNOWN_CLASS = {'C12-3': 'family-empty'}
@@ -882,7 +882,7 @@ class Prop:
 
 Prop.required_theorems = [
     'validate_code_eq_rfc6811_outside_known', 'validate_code_eq_rfc6811_refuted', 'validate_none_iff_known',
-    'validate_matched_exact', 'noncovering_vrps_irrelevant', 'policy_condition_eq_rfc6811_outside_known', 'policy_condition_known', 'origin_code_eq_rfc6811',
+    'validate_matched_exact', 'noncovering_vrps_irrelevant', 'policy_condition_eq_rfc6811_outside_known', 'policy_condition_known', 'handover_iff_rpki_policy', 'assignment_accepts_iff_state_outside_known', 'origin_code_eq_rfc6811',
     'rfc6811_state_characterised', 'mask_bytes_eq_prefix_bits',
     'vrp_table_refines_set', 'vrp_history_refines_set', 'iter_lists_installed',
     'validate_pre_refuted_covering', 'validate_pre_refuted_more_specific', 'validate_pre_refuted_as_set',
